@@ -117,21 +117,35 @@ Section M.
   Fixpoint ritems (p : N) (l : list srecord) (ends : list N) : list aitem :=
     match l, ends with x :: l', e :: ends' => ritem p x e :: ritems e l' ends' | _, _ => [] end.
 
+  (* the same facts, element by element along the list of end offsets *)
+  Fixpoint qstands (p : N) (l : list squestion) (ends : list N) : Prop :=
+    match l, ends with
+    | q :: l', e :: ends' => question_stands p q e /\ qstands e l' ends'
+    | [], [] => True
+    | _, _ => False
+    end.
+  Fixpoint rstands (p : N) (l : list srecord) (ends : list N) : Prop :=
+    match l, ends with
+    | x :: l', e :: ends' => record_stands p x e /\ rstands e l' ends'
+    | [], [] => True
+    | _, _ => False
+    end.
+
   Lemma questions_chain p l e : questions_stand p l e ->
     exists ends, length ends = length l /\ chain msg question_at (fun _ => True) p (qitems p l ends) e /\
-                 length (qitems p l ends) = length l.
+                 length (qitems p l ends) = length l /\ qstands p l ends.
   Proof.
-    induction 1 as [p|p q e rest e' Hq Hrest (ends & L & C & L2)]; [exists []; split; [reflexivity|]; split; [constructor|reflexivity]|].
-    exists (e :: ends). split; [cbn; lia|]. cbn [qitems]. split; [|cbn; lia].
+    induction 1 as [p|p q e rest e' Hq Hrest (ends & L & C & L2 & S)]; [exists []; split; [reflexivity|]; split; [constructor|split; [reflexivity|exact I]]|].
+    exists (e :: ends). split; [cbn; lia|]. cbn [qitems]. split; [|split; [cbn; lia|split; assumption]].
     apply ch_cons; [apply question_at_of; exact Hq|exact I|exact C].
   Qed.
 
   Lemma records_chain p l e : records_stand p l e ->
     exists ends, length ends = length l /\ chain msg record_at (fun it => a_data_ok it = true) p (ritems p l ends) e /\
-                 length (ritems p l ends) = length l.
+                 length (ritems p l ends) = length l /\ rstands p l ends.
   Proof.
-    induction 1 as [p|p x e rest e' Hx Hrest (ends & L & C & L2)]; [exists []; split; [reflexivity|]; split; [constructor|reflexivity]|].
-    exists (e :: ends). split; [cbn; lia|]. cbn [ritems]. split; [|cbn; lia].
+    induction 1 as [p|p x e rest e' Hx Hrest (ends & L & C & L2 & S)]; [exists []; split; [reflexivity|]; split; [constructor|split; [reflexivity|exact I]]|].
+    exists (e :: ends). split; [cbn; lia|]. cbn [ritems]. split; [|split; [cbn; lia|split; assumption]].
     apply ch_cons; [apply record_at_of; exact Hx|reflexivity|exact C].
   Qed.
 
@@ -144,14 +158,15 @@ Section M.
     lenN qs = nq -> lenN rs = an + ns + ar -> nq <= 65535 -> an <= 65535 -> ns <= 65535 -> ar <= 65535 ->
     exists qends rends,
       parsed msg nq an ns ar (qitems 12 qs qends) (ritems e1 rs rends) e1 e2 /\
-      lenN (qitems 12 qs qends) = nq /\ lenN (ritems e1 rs rends) = an + ns + ar.
+      lenN (qitems 12 qs qends) = nq /\ lenN (ritems e1 rs rends) = an + ns + ar /\
+      qstands 12 qs qends /\ rstands e1 rs rends.
   Proof.
     intros H1 H2 Hq Hr Lq Lr B1 B2 B3 B4.
-    destruct (questions_chain _ _ _ Hq) as (qends & _ & Cq & Lq2). destruct (records_chain _ _ _ Hr) as (rends & _ & Cr & Lr2).
+    destruct (questions_chain _ _ _ Hq) as (qends & _ & Cq & Lq2 & Sq). destruct (records_chain _ _ _ Hr) as (rends & _ & Cr & Lr2 & Sr).
     exists qends, rends.
     assert (E1 : lenN (qitems 12 qs qends) = nq) by (unfold lenN in *; rewrite Lq2; exact Lq).
     assert (E2 : lenN (ritems e1 rs rends) = an + ns + ar) by (unfold lenN in *; rewrite Lr2; exact Lr).
-    split; [|split; assumption].
+    split; [|split; [assumption|split; [assumption|split; assumption]]].
     unfold parsed. repeat (split; [assumption|]). split; [lia|]. split; [intro; lia|]. split; [lia|]. repeat (split; [assumption|]). assumption.
   Qed.
 
@@ -221,7 +236,7 @@ Lemma example_run :
 Proof.
   destruct example_stands as (Hq & Hr & Hl).
   destruct (message_parsed example_msg 1 1 0 0 _ _ 19 35 ltac:(rewrite Hl; lia) ltac:(rewrite Hl; lia) Hq Hr
-              eq_refl eq_refl ltac:(lia) ltac:(lia) ltac:(lia) ltac:(lia)) as (qends & rends & Hp & L1 & L2).
+              eq_refl eq_refl ltac:(lia) ltac:(lia) ltac:(lia) ltac:(lia)) as (qends & rends & Hp & L1 & L2 & _ & _).
   eexists. eexists. exists 19, 35. eexists. eexists. split; [exact Hp|]. split; [exact L1|]. split; [exact L2|].
   split; [vm_compute; reflexivity|]. cbv zeta.
   assert (Hs : RState example_msg 1 1 0 0 (qitems 12 [mkSQ [(12, [x61])] 1 1] qends) (ritems 19 [mkSR [(12, [x61])] 1 1 60 (A_A 16909060)] rends) 35
